@@ -96,6 +96,21 @@ def writeAt (buf : List Byte) (off : Nat) (bs : List Byte) : List Byte :=
 /-- load `n` bytes at offset `off` (fewer if out of bounds; shows in the access log) -/
 def readAt (buf : List Byte) (off n : Nat) : List Byte := (buf.drop off).take n
 
+/-- the same store as the byte loop `for (i = 0; i < n; i++) buf[off + i] = bs[i];` — explicit index per byte
+    (`storeBytes_eq_writeAt`: equal to `writeAt` whenever the block is in bounds) -/
+def storeBytes (buf : List Byte) (off : Nat) : List Byte → List Byte
+  | [] => buf
+  | b :: bs => storeBytes (buf.set off b) (off + 1) bs
+
+/-- `strlen` as the loop `while (buf[off + i] != 0) i++;` with an explicit index per byte read; `fuel` = bytes left in
+    the allocation, running out of it = reading past the allocation (`strlenLoop_eq`: equal to `strlen`) -/
+def strlenLoop (buf : List Byte) (off : Nat) : Nat → Nat
+  | 0 => 0
+  | fuel + 1 =>
+    match buf[off]? with
+    | some b => if b == 0 then 0 else 1 + strlenLoop buf (off + 1) fuel
+    | none => 0
+
 /-- `strstr`: offset of the first occurrence of `x` in `l` -/
 def findSub (x : List Byte) : List Byte → Option Nat
   | [] => if x = [] then some 0 else none
